@@ -860,7 +860,7 @@ fn drive_sbuf<R: Read>(c: &mut Case, rd: &mut StreamBufferedReader<R>, data: &[u
     // drain the rest with fixed-size reads
     let s = 1 + cap % 7; let mut guard = 0;
     loop { let mut buf = vec![0u8; s]; let n = match catch(|| rd.read(&mut buf)) { Ok(Ok(n)) => n, Ok(Err(e)) => return Err(io_fail("read_err", &format!("drain read({s}) at offset {}", *p), e)), Err(pn) => return Err(bad(&pn.class(), format!("read panicked at {}: {}", pn.loc, pn.msg))) };
-        if n == 0 { break; } ensure!(*p + n <= l && buf[..n] == data[*p..*p + n], "stream_bytes", "drain read at offset {}: bytes differ or data past the end", *p); *p += n; guard += 1; if guard > 200000 { return Err(bad("read_overrun", "drain does not terminate".into())); } }
+        if n == 0 { break; } ensure!(*p + n <= l && buf[..n] == data[*p..*p + n], "stream_bytes", "drain read at offset {}: bytes differ or data past the end", *p); *p += n; guard += 1; if guard > l + 1000 { return Err(bad("read_overrun", "drain does not terminate".into())); } }
     ensure!(*p >= l, "premature_eof", "stream ended at offset {} of {l}", *p); c.ev(1);
     Ok(())
 }
@@ -942,7 +942,7 @@ fn drive_zc<R: Read>(c: &mut Case, rd: &mut ZeroCopyReader<R>, data: &[u8], ops:
     }
     let s = 1 + cap % 5; let mut guard = 0;
     loop { let mut buf = vec![0u8; s]; let n = match catch(|| rd.read(&mut buf)) { Ok(Ok(n)) => n, Ok(Err(e)) => return Err(io_fail("read_err", "drain read", e)), Err(pn) => return Err(bad(&pn.class(), format!("read panicked at {}: {}", pn.loc, pn.msg))) };
-        if n == 0 { break; } ensure!(p + n <= l && buf[..n] == data[p..p + n], "stream_bytes", "drain read at offset {p}: bytes differ"); p += n; guard += 1; if guard > 200000 { return Err(bad("read_overrun", "drain does not terminate".into())); } }
+        if n == 0 { break; } ensure!(p + n <= l && buf[..n] == data[p..p + n], "stream_bytes", "drain read at offset {p}: bytes differ"); p += n; guard += 1; if guard > l + 1000 { return Err(bad("read_overrun", "drain does not terminate".into())); } }
     ensure!(p == l, "premature_eof", "stream ended at offset {p} of {l} (small reads return 0 although the inner reader still has data)"); c.ev(1);
     Ok(())
 }
@@ -1029,6 +1029,270 @@ fn run_zero_copy(ctx: &mut Ctx) {
     }
 }
 
+
+// ---------------------------------------------------------------------------------------------
+// huge_* families: sizes / counts just above 16-bit and 20-bit limits, a handful of cases per target
+// ---------------------------------------------------------------------------------------------
+const HUGE_SIZES: &[usize] = &[65535, 65536, 65537, 70001, 131071, 131072, 131073, (1 << 20) + 17];
+const HUGE_COUNTS: &[usize] = &[65535, 65536, 65537, 70001, 100001, 131073];
+fn huge_shape_name(k: u32) -> &'static str { ["dominant", "all_equal", "compressible", "xcxd", "random"][(k % 5) as usize] }
+/// data shapes at large sizes: one dominant symbol, all-equal, > 1000:1 compressible, X c X d, random
+fn huge_bytes(r: &mut Rng, len: usize, shape: u32) -> Vec<u8> {
+    match shape % 5 {
+        0 => { let d = r.next() as u8; let pct = 60 + r.below(40); (0..len).map(|_| if r.below(100) < pct { d } else { r.next() as u8 }).collect() }
+        1 => vec![r.next() as u8; len],
+        2 => { if r.bool() { let p = 1 + r.usize_below(4); let pat = r.bytes(p); (0..len).map(|i| pat[i % p]).collect() } else { let mut v = Vec::with_capacity(len); while v.len() < len { let b = r.next() as u8; let n = (20000 + r.usize_below(60000)).min(len - v.len()); v.extend(std::iter::repeat(b).take(n)); } v } }
+        3 => { let h = (len.saturating_sub(2)) / 2; let x = r.bytes(h); let mut v = x.clone(); v.push(b'c'); v.extend_from_slice(&x); while v.len() < len { v.push(b'd'); } v.truncate(len); v }
+        _ => r.bytes(len),
+    }
+}
+/// valid UTF-8 of exactly `len` bytes with multi-byte characters spread through it
+fn huge_string(r: &mut Rng, len: usize, shape: u32) -> String {
+    let mut s = String::with_capacity(len + 4); let dom = (b'a' + r.below(26) as u8) as char; const MB: &[&str] = &["é", "中", "😀", "ß", "€"];
+    while s.len() < len { let left = len - s.len(); match shape % 5 { 1 => s.push(dom), 0 => { if r.below(100) < 90 || left < 4 { s.push(dom) } else { s.push_str(*r.pick(MB)) } } 2 => s.push_str(if left >= 2 { "é" } else { "x" }),
+        _ => { if left >= 4 && r.chance(1, 5) { s.push_str(*r.pick(MB)) } else { s.push((b' ' + r.below(90) as u8) as char) } } } }
+    while s.len() > len { s.pop(); } while s.len() < len { s.push('x'); } s
+}
+/// script with length-prefixed arrays / strings of the given sizes between small items
+fn huge_items(r: &mut Rng, sizes: &[usize]) -> Vec<Item> {
+    let mut v = vec![Item::U16(bnd_u64(r) as u16), Item::Var(bnd_u64(r))];
+    for (i, &n) in sizes.iter().enumerate() { let shape = r.below(5) as u32;
+        match (i + r.usize_below(2)) % 3 { 0 => v.push(Item::LpBytes(huge_bytes(r, n, shape))), 1 => v.push(Item::LpStr(huge_string(r, n, shape))), _ => { v.push(Item::Var(n as u64)); v.push(Item::Bytes(huge_bytes(r, n, shape))); } }
+        v.push(match r.below(4) { 0 => Item::U8(r.next() as u8), 1 => Item::U32(r.next() as u32), 2 => Item::LpStr(arb_string(r)), _ => Item::U64(bnd_u64(r)) }); }
+    v.push(Item::LpBytes(huge_bytes(r, sizes[0], 3))); v.push(Item::U16(0xBEEF)); v
+}
+fn huge_size_set(idx: u64) -> &'static [usize] { if idx % 2 == 0 { &HUGE_SIZES[..4] } else { &HUGE_SIZES[4..] } }
+fn tmpd() -> Result<tempfile::TempDir, Fail> { tempfile::tempdir().map_err(|e| bad("__inconclusive", format!("tempdir: {e}"))) }
+fn inconc<E: std::fmt::Display>(e: E) -> Fail { bad("__inconclusive", format!("{e}")) }
+
+fn run_huge(ctx: &mut Ctx) {
+    // ---- varint sequences with > 65536 / > 10^5 elements
+    for idx in 0..ctx.n(6, 36) as u64 {
+        ctx.case("varint/core", "huge_count", idx, |c| { let n = HUGE_COUNTS[(idx as usize * 2 + c.rng.usize_below(2)) % HUGE_COUNTS.len()]; let v: Vec<u64> = (0..n).map(|i| if i % 1000 == 0 { bnd_u64(&mut c.rng) } else { c.rng.next() >> c.rng.below(64) }).collect(); c.input("u64s", &u64s_bytes(&v)); c.set_nontrivial(true);
+            let mut model = Vec::new(); for &x in &v { model_leb(&mut model, x); } let m = np!("encode_multiple", VarInt::encode_multiple(v.iter().copied())); ensure!(m == model, "bytes_vs_model", "encode_multiple of {n} values differs from model");
+            let d = zok!("decode_multiple", VarInt::decode_multiple(&m)); ensure!(d == v, "roundtrip_mismatch", "decode_multiple of {n} values"); let mut inp = SliceDataInput::new(&m); for (i, &x) in v.iter().enumerate() { let y = zok!("read_from", VarInt::read_from(&mut inp)); ensure!(y == x, "roundtrip_mismatch", "read_from item {i}"); } ensure!(inp.pos() == m.len(), "consumed_len", "end"); c.ev(2 * n as u64); Ok(()) });
+        for (name, st) in STRATS { let st = *st;
+            if !matches!(st, VarIntStrategy::Zigzag) { ctx.case(&format!("vs/{name}/u64seq"), "huge_count", idx, |c| { let n = HUGE_COUNTS[(idx as usize * 2 + c.rng.usize_below(2)) % HUGE_COUNTS.len()]; let kind = c.rng.below(4);
+                let mut cur = c.rng.below(1 << 20); let v: Vec<u64> = (0..n).map(|_| match kind { 0 => c.rng.next() >> (32 + c.rng.below(32)), 1 => { cur += c.rng.below(300); cur } 2 => 7, _ => if st == VarIntStrategy::GroupVarint { c.rng.next() >> 32 } else { c.rng.next() >> c.rng.below(64) } }).collect();
+                c.input("u64s", &u64s_bytes(&v)); c.input_str("n", &n.to_string()); c.set_nontrivial(true); if st == VarIntStrategy::Delta && delta_u64_bad(&v) { c.tag("delta_absdiff_ge_2pow63"); } if st == VarIntStrategy::GroupVarint && gv_bad(&v) { c.tag("gv_value_ge_2pow32"); }
+                let e = VarIntEncoder::new(st); seq_rt(c, &v, &|x| e.encode_u64_sequence(x), &|b| e.decode_u64_sequence(b)) }); }
+            ctx.case(&format!("vs/{name}/i64seq"), "huge_count", idx, |c| { let n = HUGE_COUNTS[(idx as usize * 2 + c.rng.usize_below(2)) % HUGE_COUNTS.len()]; let kind = c.rng.below(4);
+                let mut cur = -(c.rng.below(1 << 20) as i64); let v: Vec<i64> = (0..n).map(|_| match kind { 0 => (c.rng.next() >> (33 + c.rng.below(31))) as i64, 1 => { cur += c.rng.below(300) as i64 - 100; cur } 2 => -7, _ => if st == VarIntStrategy::GroupVarint { (c.rng.next() >> 33) as i64 } else { c.rng.next() as i64 >> c.rng.below(64) } }).collect();
+                c.input("i64s", &i64s_bytes(&v)); c.input_str("n", &n.to_string()); c.set_nontrivial(true); if st == VarIntStrategy::Delta && delta_i64_bad(&v) { c.tag("delta_i64_diff_overflow"); } if st == VarIntStrategy::GroupVarint && v.iter().any(|&x| (x as u64) >= 1 << 32) { c.tag("gv_value_ge_2pow32"); }
+                let e = VarIntEncoder::new(st); seq_rt(c, &v, &|x| e.encode_i64_sequence(x), &|b| e.decode_i64_sequence(b)) });
+        }
+        ctx.case("vs/auto/u64seq", "huge_count", idx, |c| { let n = HUGE_COUNTS[(idx as usize * 2 + c.rng.usize_below(2)) % HUGE_COUNTS.len()]; let kind = c.rng.below(3); let mut cur = 0u64; let v: Vec<u64> = (0..n).map(|_| match kind { 0 => c.rng.next() >> 40, 1 => { cur += c.rng.below(1 << 30); cur } _ => c.rng.below(200) }).collect(); c.input("u64s", &u64s_bytes(&v)); c.set_nontrivial(true);
+            let st = np!("choose_optimal_strategy", choose_optimal_strategy(&v)); c.note(&format!("auto:{st:?}"), 1); let e = VarIntEncoder::new(st); seq_rt(c, &v, &|x| e.encode_u64_sequence(x), &|b| e.decode_u64_sequence(b)) });
+        ctx.case("vs/auto/i64seq", "huge_count", idx, |c| { let n = HUGE_COUNTS[(idx as usize * 2 + c.rng.usize_below(2)) % HUGE_COUNTS.len()]; let kind = c.rng.below(3); let mut cur = -5000i64; let v: Vec<i64> = (0..n).map(|_| match kind { 0 => (c.rng.next() >> 40) as i64 - 8000, 1 => { cur += c.rng.below(1 << 20) as i64; cur } _ => c.rng.below(200) as i64 }).collect(); c.input("i64s", &i64s_bytes(&v)); c.set_nontrivial(true);
+            let st = np!("choose_optimal_strategy_signed", choose_optimal_strategy_signed(&v)); c.note(&format!("auto:{st:?}"), 1); let e = VarIntEncoder::new(st); seq_rt(c, &v, &|x| e.encode_i64_sequence(x), &|b| e.decode_i64_sequence(b)) });
+        for which in ["simd_varint/codec", "simd_varint/global"] {
+            ctx.case(which, "huge_count", idx, |c| { let n = if idx % 2 == 1 { (1 << 20) + 17 } else { HUGE_COUNTS[c.rng.usize_below(HUGE_COUNTS.len())] }; let kind = c.rng.below(3); let v: Vec<u64> = (0..n).map(|i| match kind { 0 => c.rng.next() >> c.rng.below(64), 1 => if i % 70000 == 69999 { u64::MAX } else { 3 }, _ => c.rng.below(1 << 14) }).collect(); c.input("u64s", &u64s_bytes(&v)); c.set_nontrivial(true);
+                let global = which.ends_with("global"); let codec = np!("SimdVarintCodec::new", sv::SimdVarintCodec::new()); let mut model = Vec::with_capacity(n * 3); for &x in &v { model_leb(&mut model, x); }
+                let e = zok!("encode_batch", if global { sv::encode_varint_batch(&v) } else { codec.encode_batch(&v) }); ensure!(e == model, "batch_bytes_vs_scalar", "encode_batch of {n} values differs from scalar codec (first diff at byte {:?})", e.iter().zip(&model).position(|(a, b)| a != b));
+                let d = zok!("decode_batch", if global { sv::decode_varint_batch(&e, n) } else { codec.decode_batch(&e, n) }); ensure!(d == v, "roundtrip_mismatch", "decode_batch(encode_batch) differs (n={n})"); c.ev(2 * n as u64); Ok(()) });
+        }
+    }
+    // ---- length-prefixed arrays / strings of 65535..65537, 70001, 131071..131073, 1 MiB + 17 through every DataOutput / DataInput back end
+    for idx in 0..ctx.n(4, 32) as u64 {
+        ctx.case("dout/vec", "huge_lp", idx, |c| { let items = huge_items(&mut c.rng, huge_size_set(idx)); let (m, _) = record_items(c, &items); let mut o = if c.rng.bool() { VecDataOutput::new() } else { zipora::io::to_vec_with_capacity(*c.rng.pick(&[65537usize, 131073, 196609, 262145])) }; write_items(c, &mut o, &items, 0)?; ensure!(o.as_slice() == &m[..], "bytes_vs_model", "VecDataOutput bytes differ from model"); c.ev(1); Ok(()) });
+        ctx.case("dout/writer", "huge_lp", idx, |c| { let items = huge_items(&mut c.rng, huge_size_set(idx)); let (m, _) = record_items(c, &items);
+            if c.rng.bool() { let mut o = WriterDataOutput::new(Vec::new()); write_items(c, &mut o, &items, 0)?; ensure!(o.into_inner() == m, "bytes_vs_model", "WriterDataOutput<Vec> bytes differ from model"); }
+            else { c.tag("inner_short_writes"); let f = c.rng.fork(); let mx = *c.rng.pick(&[4096usize, 65535, 65536, 65537]); let mut o = zipora::io::to_writer(ShortWriter::new(mx, f)); write_items(c, &mut o, &items, 0)?; ensure!(o.into_inner().out == m, "bytes_vs_model", "WriterDataOutput<short writer> bytes differ from model"); } c.ev(1); Ok(()) });
+        ctx.case("dout/file", "huge_lp", idx, |c| { let items = huge_items(&mut c.rng, huge_size_set(idx)); let (m, _) = record_items(c, &items); let dir = tmpd()?; let p = dir.path().join("f.bin"); let cut = c.rng.usize_below(items.len() + 1);
+            { let mut o = zok!("FileDataOutput::create", FileDataOutput::create(&p)); write_items(c, &mut o, &items[..cut], 0)?; } let base = model_bytes(&items[..cut]).0.len() as u64;
+            { let mut o = zok!("FileDataOutput::append", FileDataOutput::append(&p)); write_items(c, &mut o, &items[cut..], base)?; } let got = std::fs::read(&p).map_err(inconc)?; ensure!(got == m, "bytes_vs_model", "file content ({} bytes) differs from model ({} bytes)", got.len(), m.len()); c.ev(1); Ok(()) });
+        ctx.case("dout/mmap", "huge_lp", idx, |c| { let items = huge_items(&mut c.rng, huge_size_set(idx)); let (m, _) = record_items(c, &items); let dir = tmpd()?; let p = dir.path().join("m.bin"); let init = *c.rng.pick(&[1usize, 4096, 65535, 65536, 65537, 131073, 196609, 262145]); c.input_str("initial_size", &init.to_string());
+            let mut o = zok!("MemoryMappedOutput::create", MemoryMappedOutput::create(&p, init)); write_items(c, &mut o, &items, 0)?; ensure!(o.position() == m.len() && o.capacity() >= m.len(), "writer_position", "position()={} want {}", o.position(), m.len()); zok!("truncate", o.truncate()); drop(o);
+            let got = std::fs::read(&p).map_err(inconc)?; ensure!(got == m, "bytes_vs_model", "truncated mmap file ({} bytes) differs from model ({} bytes)", got.len(), m.len()); c.ev(1); Ok(()) });
+        ctx.case("din/slice", "huge_lp", idx, |c| { let items = huge_items(&mut c.rng, huge_size_set(idx)); let (m, ends) = record_items(c, &items); let mut i = SliceDataInput::new(&m); read_items(c, &mut i, &items, &ends, true, true)?; ensure!(i.remaining() == 0, "consumed_len", "slice input not at end"); Ok(()) });
+        ctx.case("din/reader", "huge_lp", idx, |c| { let items = huge_items(&mut c.rng, huge_size_set(idx)); let (m, ends) = record_items(c, &items);
+            if c.rng.bool() { let mut i = ReaderDataInput::new(Cursor::new(m.clone())); read_items(c, &mut i, &items, &ends, true, true)?; ensure!(i.pos() == m.len() as u64, "consumed_len", "pos()"); }
+            else { c.tag("inner_short_reads"); let f = c.rng.fork(); let mx = *c.rng.pick(&[4096usize, 65535, 65536, 65537]); let mut i = zipora::io::from_reader(Chunked::new(&m, mx, f)); read_items(c, &mut i, &items, &ends, true, true)?; } Ok(()) });
+        ctx.case("din/range", "huge_lp", idx, |c| { let items = huge_items(&mut c.rng, huge_size_set(idx)); let (m, ends) = record_items(c, &items); let pre = 65530 + c.rng.usize_below(12); let post = c.rng.usize_below(70000); let mut all = huge_bytes(&mut c.rng, pre, 0); all.extend_from_slice(&m); all.extend(vec![0x5a; post]); c.input_str("pre_post", &format!("{pre},{post}"));
+            let mut i = zok!("RangeReader::new_and_seek", RangeReader::new_and_seek(Cursor::new(all), pre as u64, m.len() as u64)); read_items(c, &mut i, &items, &ends, true, true)?; ensure!(i.remaining() == 0 && i.is_at_end(), "consumed_len", "range reader not at end"); Ok(()) });
+        ctx.case("din/range", "huge_sparse_offset", idx, |c| { // range beyond 2^32 inside a sparse file
+            let items = huge_items(&mut c.rng, &HUGE_SIZES[(idx as usize % 3) * 2..(idx as usize % 3) * 2 + 2]); let (m, ends) = record_items(c, &items); let off = (1u64 << 32) + *c.rng.pick(&[0u64, 1, 65535, 70001]); c.input_str("offset", &off.to_string());
+            let dir = tmpd()?; let p = dir.path().join("sparse.bin"); { let mut f = std::fs::File::create(&p).map_err(inconc)?; f.seek(SeekFrom::Start(off)).map_err(inconc)?; f.write_all(&m).map_err(inconc)?; f.write_all(&[0x77; 100]).map_err(inconc)?; }
+            let f = std::fs::File::open(&p).map_err(inconc)?; let mut i = zok!("RangeReader::new_and_seek", RangeReader::new_and_seek(f, off, m.len() as u64)); read_items(c, &mut i, &items, &ends, true, true)?; ensure!(i.remaining() == 0 && i.current_position() == off + m.len() as u64, "consumed_len", "range reader at {} want {}", i.current_position(), off + m.len() as u64); Ok(()) });
+        ctx.case("din/mmap", "huge_lp", idx, |c| { let items = huge_items(&mut c.rng, huge_size_set(idx)); let (m, ends) = record_items(c, &items); let dir = tmpd()?; let p = dir.path().join("i.bin"); std::fs::write(&p, &m).map_err(inconc)?;
+            let mut i = zok!("MmapDataInput::open", MmapDataInput::open(&p)); ensure!(i.len() == m.len(), "len", "len()"); read_items(c, &mut i, &items, &ends, true, true)?; ensure!(i.remaining() == 0, "consumed_len", "remaining"); Ok(()) });
+        ctx.case("din/mmapped_input", "huge_lp", idx, |c| { let items = huge_items(&mut c.rng, huge_size_set(idx)); let (m, ends) = record_items(c, &items); let dir = tmpd()?; let p = dir.path().join("i.bin"); std::fs::write(&p, &m).map_err(inconc)?;
+            let mut i = zok!("MemoryMappedInput::from_path", MemoryMappedInput::from_path(&p)); c.note(&format!("strategy:{:?}", i.strategy()), 1); read_items(c, &mut i, &items, &ends, true, true)?; ensure!(i.remaining() == 0 && i.position() == m.len(), "consumed_len", "position {} want {}", i.position(), m.len());
+            let k = c.rng.usize_below(items.len()); let start = if k == 0 { 0 } else { ends[k - 1] }; zok!("seek", i.seek(start)); let raw = zok!("read_slice", i.read_slice(m.len() - start)); ensure!(raw[..] == m[start..], "reread_mismatch", "after seek({start}) the tail differs"); c.ev(1); Ok(()) });
+    }
+    // ---- collections with > 65536 / > 10^5 elements, strings and arrays of the boundary sizes
+    for idx in 0..ctx.n(8, 48) as u64 {
+        let pick_n = |r: &mut Rng| HUGE_COUNTS[(idx as usize * 2 + r.usize_below(2)) % HUGE_COUNTS.len()];
+        ctx.case("ser/vec", "huge_vec_u8", idx, |c| { let n = HUGE_SIZES[(idx as usize * 3 + c.rng.usize_below(3)) % HUGE_SIZES.len()]; let sh = c.rng.below(5) as u32; let a = huge_bytes(&mut c.rng, n, sh); let b: Vec<u8> = Arb::arb(&mut c.rng, 2); c.input("a", &a); c.set_nontrivial(true); rt_ser(c, &a, &b) });
+        ctx.case("ser/vec", "huge_vec_u32", idx, |c| { let n = pick_n(&mut c.rng); let a: Vec<u32> = (0..n).map(|_| c.rng.next() as u32).collect(); let b: Vec<u32> = vec![1, 2, 3]; c.input_str("n", &n.to_string()); c.hash_more(&(a[0] as u64).to_le_bytes()); c.set_nontrivial(true); rt_ser(c, &a, &b) });
+        ctx.case("ser/vec", "huge_vec_string", idx, |c| { let n = pick_n(&mut c.rng); let a: Vec<String> = (0..n).map(|i| if i % 9 == 0 { String::new() } else { format!("k{}é", c.rng.below(1000)) }).collect(); let b: Vec<String> = vec!["x".into()]; c.input_str("n", &n.to_string()); c.hash_more(a[1].as_bytes()); c.set_nontrivial(true); rt_ser(c, &a, &b) });
+        ctx.case("ser/string", "huge_string", idx, |c| { let n = HUGE_SIZES[(idx as usize * 3 + c.rng.usize_below(3)) % HUGE_SIZES.len()]; let sh = c.rng.below(5) as u32; let a = huge_string(&mut c.rng, n, sh); let b = arb_string(&mut c.rng); c.input("a", a.as_bytes()); c.set_nontrivial(true); rt_ser(c, &a, &b) });
+        ctx.case("ser/nested", "huge_nested", idx, |c| { let n = pick_n(&mut c.rng); let a: Vec<Option<u16>> = (0..n).map(|i| if i % 3 == 0 { None } else { Some(c.rng.next() as u16) }).collect(); let big = huge_string(&mut c.rng, 65537, 4); let m: BTreeMap<String, Vec<Option<u16>>> = [("k".to_string(), a), (big, vec![Some(1)])].into_iter().collect(); let b: BTreeMap<String, Vec<Option<u16>>> = BTreeMap::new(); c.input_str("n", &n.to_string()); c.hash_more(&c.rng.clone().next().to_le_bytes()); c.set_nontrivial(true); rt_ser(c, &m, &b) });
+        ctx.case("complex/btreemap", "huge_entries", idx, |c| { let n = pick_n(&mut c.rng); let a: BTreeMap<u32, u16> = (0..n as u32).map(|i| (i.wrapping_mul(2654435761), c.rng.next() as u16)).collect(); let b: BTreeMap<u32, u16> = [(1, 2)].into_iter().collect(); c.input_str("n", &format!("{n} {}", a.len())); c.hash_more(&c.rng.clone().next().to_le_bytes()); rt_complex_unordered(c, &a, &b) });
+        ctx.case("complex/btreeset", "huge_entries", idx, |c| { let n = pick_n(&mut c.rng); let a: BTreeSet<u64> = (0..n as u64).map(|i| i << (i % 40)).collect(); let b: BTreeSet<u64> = BTreeSet::new(); c.input_str("n", &format!("{n} {}", a.len())); rt_complex_unordered(c, &a, &b) });
+        ctx.case("complex/hashmap", "huge_entries", idx, |c| { let n = pick_n(&mut c.rng); let a: HashMap<u32, u8> = (0..n as u32).map(|i| (i ^ 0x5555_0000, c.rng.next() as u8)).collect(); let b: HashMap<u32, u8> = HashMap::new(); c.input_str("n", &format!("{n}")); c.hash_more(&c.rng.clone().next().to_le_bytes()); rt_complex_unordered(c, &a, &b) });
+        ctx.case("complex/hashset", "huge_full_u16", idx, |c| { let a: HashSet<u16> = (0..=u16::MAX).collect(); let b: HashSet<u16> = (0..c.rng.below(70000)).map(|x| x as u16).collect(); c.input_str("n", &format!("65536 {}", b.len())); rt_complex_unordered(c, &a, &b) });
+        ctx.case("complex/tuple", "huge_members", idx, |c| { let n = HUGE_SIZES[(idx as usize * 3 + c.rng.usize_below(3)) % HUGE_SIZES.len()]; let sh = c.rng.below(5) as u32; let a = (7u8, huge_string(&mut c.rng, n, sh), huge_bytes(&mut c.rng, 65537, sh + 1), Some(-1i64)); let b = (0u8, String::new(), vec![], None); c.input("a1", a.1.as_bytes()); c.input("a2", &a.2); rt_complex_unordered(c, &a, &b) });
+        ctx.case("complex/array", "huge_u8x65537", idx, |c| { let sh = c.rng.below(5) as u32; let v = huge_bytes(&mut c.rng, 65537, sh); let a: Box<[u8; 65537]> = v.clone().into_boxed_slice().try_into().map_err(|_| bad("__inconclusive", "boxed array".into()))?; let b: Box<[u8; 65537]> = vec![3u8; 65537].into_boxed_slice().try_into().map_err(|_| bad("__inconclusive", "boxed array".into()))?; c.input("a", &v); rt_complex_unordered::<[u8; 65537]>(c, &a, &b) });
+        ctx.case("complex/option", "huge_payload", idx, |c| { let n = HUGE_SIZES[(idx as usize * 3 + c.rng.usize_below(3)) % HUGE_SIZES.len()]; let sh = c.rng.below(5) as u32; let a = Some(huge_bytes(&mut c.rng, n, sh)); let b: Option<Vec<u8>> = None; c.input("a", a.as_ref().unwrap()); rt_complex_unordered(c, &a, &b) });
+        ctx.case("complex/serializer", "huge_batch", idx, |c| { type T = (u32, String, Option<Vec<i16>>); let n = pick_n(&mut c.rng); let vals: Vec<T> = (0..n).map(|i| (i as u32, if i % 5 == 0 { "é".to_string() } else { String::new() }, if i % 7 == 0 { Some(vec![i as i16]) } else { None })).collect(); c.input_str("n", &n.to_string()); c.set_nontrivial(true);
+            for (nm, cfg) in [("new", ComplexTypeConfig::new()), ("compact", ComplexTypeConfig::compact())] { let s = ComplexTypeSerializer::new(cfg); let e = zok!("serialize_batch", s.serialize_batch(&vals)); let d: Vec<T> = match s.deserialize_batch(&e) { Ok(d) => d, Err(er) => return Err(bad("decode_err", format!("preset {nm} batch of {n}: {er}"))) }; ensure!(d == vals, "roundtrip_mismatch", "preset {nm} batch of {n}"); c.ev(n as u64); } Ok(()) });
+        ctx.case("sptr/box", "huge_payload", idx, |c| { let n = HUGE_SIZES[(idx as usize * 3 + c.rng.usize_below(3)) % HUGE_SIZES.len()]; let sh = c.rng.below(5) as u32; let a = Box::new(huge_string(&mut c.rng, n, sh)); let b = Box::new(String::from("b")); c.input("a", a.as_bytes()); c.set_nontrivial(true); rt_sp::<String, Box<String>>(c, &a, &b, &|p, q| p == q, "Box<String>") });
+        ctx.case("sptr/arc", "huge_payload", idx, |c| { let n = pick_n(&mut c.rng); let a: Arc<Vec<Option<String>>> = Arc::new((0..n).map(|i| if i % 4 == 0 { None } else { Some("ab".to_string()) }).collect()); let b: Arc<Vec<Option<String>>> = Arc::new(vec![]); c.input_str("n", &n.to_string()); c.set_nontrivial(true); rt_sp::<Vec<Option<String>>, Arc<Vec<Option<String>>>>(c, &a, &b, &|p, q| p == q, "Arc<Vec<..>>") });
+        ctx.case("sptr/shared_ctx", "huge_handles", idx, |c| { // object ids beyond 16 bits: > 65536 distinct objects, > 70000 handles with aliasing
+            let n = 65537 + c.rng.usize_below(600); let objs: Vec<Rc<u32>> = (0..n).map(|i| Rc::new(i as u32 ^ 0xABCD_0000)).collect(); let m = n + 5000; let detect = idx % 2 == 0; let picks: Vec<usize> = (0..m).map(|k| if k < n { k } else { c.rng.usize_below(n) }).collect(); c.input_str("handles", &format!("{n} objects {m} handles detect={detect}")); c.hash_more(&(picks[n] as u64).to_le_bytes()); c.set_nontrivial(true);
+            let mut sc = if detect { SerializationContext::new() } else { SerializationContext::without_cycle_detection() }; let mut o = VecDataOutput::new(); let mut lens = Vec::with_capacity(m); for &p in &picks { zok!("serialize_with_context", objs[p].serialize_with_context(&mut o, &mut sc)); lens.push(o.len()); }
+            zok!("write_bytes", o.write_bytes(&SENT)); let buf = o.into_vec(); let mut i = SliceDataInput::new(&buf); let mut dc: DeserializationContext<Rc<u32>> = DeserializationContext::new();
+            for (k, &p) in picks.iter().enumerate() { let d = match <Rc<u32> as SmartPtrSerialize<u32>>::deserialize_with_context(&mut i, &mut dc) { Ok(d) => d, Err(e) => return Err(bad("decode_err", format!("handle {k} (object {p}): {e}"))) }; ensure!(*d == *objs[p], "roundtrip_mismatch", "handle {k} (object {p}) decoded {} want {}", *d, *objs[p]); ensure!(i.pos() == lens[k], "consumed_len", "after handle {k} reader at {} want {}", i.pos(), lens[k]); }
+            c.ev(2 * m as u64); Ok(()) });
+        ctx.case("ver/fields", "huge_skipped_field", idx, |c| { // a large field the reader must skip / decode with exact consumption
+            let n = HUGE_SIZES[(idx as usize * 3 + c.rng.usize_below(3)) % HUGE_SIZES.len()]; let sh = c.rng.below(5) as u32; let big = huge_string(&mut c.rng, n, sh); let bigv: Vec<u32> = (0..70001).map(|_| c.rng.next() as u32).collect(); let visible = c.rng.bool(); c.input("big", big.as_bytes()); c.input_str("visible", &visible.to_string()); c.set_nontrivial(true);
+            let wv = Version::new(1, 3, 0); let rv = if visible { wv } else { Version::new(1, 0, 0) }; let mut wm = VersionManager::new(wv); let mut rm = VersionManager::new(Version::new(9, 9, 9)); rm.set_reading_version(rv); for m in [&mut wm, &mut rm] { m.register_field("big", Version::new(1, 1, 0)); m.register_field("bigv", Version::new(1, 2, 0)); }
+            let mut o = VecDataOutput::new(); zok!("serialize_field", wm.serialize_field("big", &big, &mut o)); let l1 = o.len(); zok!("serialize_field", wm.serialize_field("bigv", &bigv, &mut o)); let l2 = o.len(); zok!("serialize_field", wm.serialize_field("tail", &0xFEEDu16, &mut o)); zok!("write_bytes", o.write_bytes(&SENT)); let buf = o.into_vec(); let mut inp = SliceDataInput::new(&buf);
+            let d: Option<String> = zok!("deserialize_field", rm.deserialize_field("big", &mut inp)); ensure!(d == if visible { Some(big.clone()) } else { None }, "field_value", "big field visible={visible}"); ensure!(inp.pos() == l1, "consumed_len", "after big field reader at {} want {l1}", inp.pos());
+            let d: Option<Vec<u32>> = zok!("deserialize_field", rm.deserialize_field("bigv", &mut inp)); ensure!(d == if visible { Some(bigv.clone()) } else { None }, "field_value", "bigv field visible={visible}"); ensure!(inp.pos() == l2, "consumed_len", "after bigv field reader at {} want {l2}", inp.pos());
+            let t: Option<u16> = zok!("deserialize_field", rm.deserialize_field("tail", &mut inp)); ensure!(t == Some(0xFEED), "field_value", "tail after huge fields = {t:?}"); c.ev(5); Ok(()) });
+        ctx.case("ver/serializer", "huge_string_field", idx, |c| { let n = HUGE_SIZES[(idx as usize * 3 + c.rng.usize_below(3)) % HUGE_SIZES.len()]; let sh = c.rng.below(5) as u32; let vals = (c.rng.next() as u32, huge_string(&mut c.rng, n, sh), bnd_u64(&mut c.rng), 0xC0DEu16); c.input("b", vals.1.as_bytes()); c.set_nontrivial(true); let cfgs = ver_cfgs(); let (nm, cfg) = cfgs[c.rng.usize_below(cfgs.len())].clone(); skew(c, &vals, nm, cfg, 2, 2) });
+        ctx.case("ver/trait_pair", "huge_string_field", idx, |c| { let n = HUGE_SIZES[(idx as usize * 3 + c.rng.usize_below(3)) % HUGE_SIZES.len()]; let sh = c.rng.below(5) as u32; let w = VRec::<1, 3> { a: c.rng.next() as u32, b: huge_string(&mut c.rng, n, sh), c: bnd_u64(&mut c.rng), tail: 9 }; c.input("b", w.b.as_bytes()); c.set_nontrivial(true); c.tag("versioned_trait_pair_asymmetric");
+            let mut o = VecDataOutput::new(); zok!("serialize_versioned", w.serialize_versioned(&mut o)); zok!("write_bytes", o.write_bytes(&SENT)); let e = o.into_vec(); let mut i = SliceDataInput::new(&e); let d = zok!("deserialize_versioned", VRec::<1, 3>::deserialize_versioned(&mut i)); ensure!(d == w, "roundtrip_mismatch", "record with a {n}-byte string differs"); ensure!(i.pos() + SENT.len() == e.len(), "consumed_len", "consumed {} of {}", i.pos(), e.len() - SENT.len()); c.ev(2); Ok(()) });
+        ctx.case("endian/convert_io", "huge_slice", idx, |c| { let n = HUGE_SIZES[(idx as usize * 3 + c.rng.usize_below(3)) % HUGE_SIZES.len()]; c.input_str("n", &n.to_string()); c.set_nontrivial(true);
+            macro_rules! big_slice { ($t:ty) => {{ let orig: Vec<$t> = (0..n).map(|_| c.rng.next() as $t).collect(); for e in [Endianness::Little, Endianness::Big] { let io = EndianIO::<$t>::new(e); let mut v = orig.clone(); np!("convert_slice_to_endian", io.convert_slice_to_endian(&mut v));
+                if let Some(i) = (0..n).find(|&i| v[i].to_ne_bytes() != match e { Endianness::Big => orig[i].to_be_bytes(), _ => orig[i].to_le_bytes() }) { return Err(bad("slice_to_endian", format!("{}[{i}] of {n} {e:?}", stringify!($t)))); } np!("convert_slice_from_endian", io.convert_slice_from_endian(&mut v)); ensure!(v == orig, "endian_roundtrip", "slice {} {e:?} n={n}", stringify!($t)); c.ev(2 * n as u64); } }} }
+            big_slice!(u16); big_slice!(u32); big_slice!(u64); Ok(()) });
+        ctx.case("endian/simd_slice", "huge_slice", idx, |c| { c.tag("simd_slice_flag_inverted"); let n = HUGE_SIZES[(idx as usize * 3 + c.rng.usize_below(3)) % HUGE_SIZES.len()]; let from_little = c.rng.bool(); c.input_str("n_from_little", &format!("{n},{from_little}")); c.set_nontrivial(true);
+            let a: Vec<u16> = (0..n).map(|_| c.rng.next() as u16).collect(); let mut x = a.clone(); np!("convert_u16_slice_simd", endian::simd::convert_u16_slice_simd(&mut x, from_little)); if let Some(i) = (0..n).find(|&i| x[i] != if from_little { u16::from_le(a[i]) } else { u16::from_be(a[i]) }) { return Err(bad("simd_slice_vs_from_bytes", format!("convert_u16_slice_simd(from_little={from_little})[{i}] of {n}"))); }
+            let b: Vec<u32> = (0..n).map(|_| c.rng.next() as u32).collect(); let mut y = b.clone(); np!("convert_u32_slice_simd", endian::simd::convert_u32_slice_simd(&mut y, from_little)); if let Some(i) = (0..n).find(|&i| y[i] != if from_little { u32::from_le(b[i]) } else { u32::from_be(b[i]) }) { return Err(bad("simd_slice_vs_from_bytes", format!("convert_u32_slice_simd(from_little={from_little})[{i}] of {n}"))); } c.ev(2 * n as u64); Ok(()) });
+    }
+    run_huge_streams(ctx);
+}
+
+fn huge_stream_data(c: &mut Case, len: usize) -> Vec<u8> { let sh = c.rng.below(5) as u32; let d = huge_bytes(&mut c.rng, len, sh); c.input_str("shape", huge_shape_name(sh)); c.input("data", &d); c.set_nontrivial(true); d }
+fn run_huge_streams(ctx: &mut Ctx) {
+    for idx in 0..ctx.n(4, 32) as u64 {
+        // ---- buffered writer: small unflushed writes, then a write at / around the bulk threshold and far above the capacity
+        for inner_kind in ["vec", "short"] {
+            ctx.case("sbuf/writer", &format!("huge_bulk_after_small_{inner_kind}"), idx, |c| {
+                let presets: [(&str, StreamBufferConfig); 6] = [("default", StreamBufferConfig::default()), ("performance_optimized", StreamBufferConfig::performance_optimized()), ("memory_efficient", StreamBufferConfig::memory_efficient()), ("low_latency", StreamBufferConfig::low_latency()),
+                    ("cap65537", StreamBufferConfig { initial_capacity: 65537, page_alignment: 1, bulk_read_threshold: 65536, use_secure_pool: false, ..StreamBufferConfig::default() }), ("cap131073_nothr", StreamBufferConfig { initial_capacity: 131073, page_alignment: 1, bulk_read_threshold: usize::MAX / 2, use_secure_pool: false, ..StreamBufferConfig::default() })];
+                c.set_nontrivial(true); let mut total_ev = 0u64;
+                for (nm, cfg) in presets.iter() {
+                    let thr = cfg.bulk_read_threshold; let cap = (cfg.initial_capacity + cfg.page_alignment - 1) & !(cfg.page_alignment - 1);
+                    let mut bigs: Vec<usize> = vec![thr.wrapping_sub(1), thr, thr.wrapping_add(1), cap - 1, cap, cap + 1, 65535, 65536, 65537, 131073]; if idx % 2 == 1 { bigs.push((1 << 20) + 17); bigs.push((2 << 20) + 3); } bigs.retain(|&b| b >= 1 && b <= (4 << 20));
+                    for &big in &bigs {
+                        let small_total = 1 + c.rng.usize_below(thr.min(cap).min(5000).max(2) - 1); let mut model: Vec<u8> = Vec::with_capacity(big + small_total + 64);
+                        macro_rules! go { ($w:expr, $bytes:expr) => {{
+                            let mut left = small_total; while left > 0 { let k = (1 + c.rng.usize_below(97)).min(left); let chunk = c.rng.bytes(k); let mut off = 0; while off < k { let n = $w.write(&chunk[off..]).map_err(|e| io_fail("write_err", "small write", e))?; ensure!(n > 0 && n <= k - off, "write_count", "small write returned {n}"); off += n; } model.extend_from_slice(&chunk); left -= k; }
+                            ensure!($w.buffer_usage() > 0 || small_total >= cap, "buffer_usage", "{nm}: small writes were not buffered");
+                            let sh = c.rng.below(5) as u32; let chunk = huge_bytes(&mut c.rng, big, sh); let mut off = 0; let mut spins = 0; while off < big { let n = match catch(|| $w.write(&chunk[off..])) { Ok(Ok(n)) => n, Ok(Err(e)) => return Err(io_fail("write_err", &format!("{nm}: write({}) after {small_total} buffered bytes", big - off), e)), Err(p) => return Err(bad(&p.class(), format!("write panicked at {}: {}", p.loc, p.msg))) }; ensure!(n <= big - off && (n > 0 || { spins += 1; spins < 3 }), "write_count", "{nm}: write({}) returned {n}", big - off); off += n; } model.extend_from_slice(&chunk);
+                            let tl = 1 + c.rng.usize_below(9); let tail = c.rng.bytes(tl); for &b in &tail { zok!("write_byte_fast", $w.write_byte_fast(b)); } model.extend_from_slice(&tail);
+                            let inner = $w.into_inner().map_err(|e| io_fail("write_err", "into_inner", e))?; let got: Vec<u8> = $bytes(inner);
+                            ensure!(got == model, "stream_bytes", "{nm}: {small_total} small bytes then write({big}) (threshold {thr}, capacity {cap}): inner received {} bytes, wrote {}; first diff {:?}", got.len(), model.len(), got.iter().zip(&model).position(|(a, b)| a != b)); total_ev += 1;
+                        }} }
+                        if inner_kind == "vec" { let mut w = zok!("with_config", StreamBufferedWriter::with_config(Vec::new(), cfg.clone())); go!(w, |v: Vec<u8>| v); }
+                        else { let f = c.rng.fork(); let mx = *c.rng.pick(&[4095usize, 65535, 65536, 65537, 200000]); let mut w = zok!("with_config", StreamBufferedWriter::with_config(ShortWriter::new(mx, f), cfg.clone())); go!(w, |s: ShortWriter| s.out); }
+                    }
+                }
+                if inner_kind == "short" { c.tag("inner_short_writes"); } c.input_str("idx", &idx.to_string()); c.ev(total_ev); Ok(()) });
+            ctx.case("zc/writer", &format!("huge_bulk_after_small_{inner_kind}"), idx, |c| { c.set_nontrivial(true); if inner_kind == "short" { c.tag("inner_short_writes"); } c.input_str("idx", &idx.to_string()); let mut total_ev = 0u64;
+                for &cap in &[65536usize, 65537, 131073, 196609, 262145] { let half = cap / 2;
+                    let mut bigs = vec![half - 1, half, half + 1, cap - 1, cap, cap + 1, 65535, 131073]; if idx % 2 == 1 { bigs.push((1 << 20) + 17); }
+                    for &big in &bigs { let small_total = 1 + c.rng.usize_below(3000); let mut model: Vec<u8> = Vec::with_capacity(big + small_total + 64);
+                        macro_rules! go { ($w:expr, $bytes:expr) => {{
+                            let mut left = small_total; while left > 0 { let k = (1 + c.rng.usize_below(97)).min(left); let chunk = c.rng.bytes(k); let mut off = 0; while off < k { let n = $w.write(&chunk[off..]).map_err(|e| io_fail("write_err", "small write", e))?; ensure!(n > 0 && n <= k - off, "write_count", "small write returned {n}"); off += n; } model.extend_from_slice(&chunk); left -= k; }
+                            if c.rng.bool() { let k = 1 + c.rng.usize_below(200); let fill = c.rng.bytes(k); let some = zok!("zc_write", $w.zc_write(k).map(|o| o.map(|s| s.copy_from_slice(&fill)))); ensure!(some.is_some(), "zc_write_none", "zc_write({k}) = None with capacity {cap}"); zok!("zc_commit", $w.zc_commit(k)); model.extend_from_slice(&fill); }
+                            let sh = c.rng.below(5) as u32; let chunk = huge_bytes(&mut c.rng, big, sh); let mut off = 0; let mut spins = 0; while off < big { let n = match catch(|| $w.write(&chunk[off..])) { Ok(Ok(n)) => n, Ok(Err(e)) => return Err(io_fail("write_err", &format!("write({}) capacity {cap}", big - off), e)), Err(p) => return Err(bad(&p.class(), format!("write panicked at {}: {}", p.loc, p.msg))) }; ensure!(n <= big - off && (n > 0 || { spins += 1; spins < 3 }), "write_count", "write({}) returned {n}", big - off); off += n; } model.extend_from_slice(&chunk);
+                            let tl = 1 + c.rng.usize_below(9); let tail = c.rng.bytes(tl); let mut off = 0; while off < tail.len() { off += $w.write(&tail[off..]).map_err(|e| io_fail("write_err", "tail write", e))?; } model.extend_from_slice(&tail);
+                            let inner = $w.into_inner().map_err(|e| io_fail("write_err", "into_inner", e))?; let got: Vec<u8> = $bytes(inner);
+                            ensure!(got == model, "stream_bytes", "capacity {cap}: {small_total}+ small bytes then write({big}): inner received {} bytes, wrote {}; first diff {:?}", got.len(), model.len(), got.iter().zip(&model).position(|(a, b)| a != b)); total_ev += 1;
+                        }} }
+                        if inner_kind == "vec" { let mut w = zok!("with_capacity", ZeroCopyWriter::with_capacity(Vec::new(), cap)); go!(w, |v: Vec<u8>| v); }
+                        else { let f = c.rng.fork(); let mx = *c.rng.pick(&[4095usize, 65535, 65536, 65537, 200000]); let mut w = zok!("with_capacity", ZeroCopyWriter::with_capacity(ShortWriter::new(mx, f), cap)); go!(w, |s: ShortWriter| s.out); }
+                    } }
+                c.ev(total_ev); Ok(()) });
+        }
+        // ---- buffered / zero-copy readers over > 1 MiB streams with requests around 2^16 / 2^17 and buffer growth over several steps
+        for inner_kind in ["cursor", "chunked"] {
+            ctx.case("sbuf/reader", &format!("huge_stream_{inner_kind}"), idx, |c| { let len = if idx % 2 == 0 { (1 << 20) + 17 } else { (2 << 20) + 3 }; let data = huge_stream_data(c, len); let which = c.rng.below(6);
+                let cfg = match which { 0 => StreamBufferConfig::default(), 1 => StreamBufferConfig::performance_optimized(), 2 => StreamBufferConfig::memory_efficient(), 3 => StreamBufferConfig::low_latency(),
+                    4 => StreamBufferConfig { initial_capacity: 65537, max_capacity: 262145, page_alignment: 1, use_secure_pool: false, bulk_read_threshold: 131073, ..StreamBufferConfig::default() }, _ => StreamBufferConfig { initial_capacity: 4096, max_capacity: 4 << 20, growth_factor: 1.5, page_alignment: 1, use_secure_pool: false, bulk_read_threshold: usize::MAX / 2, ..StreamBufferConfig::default() } };
+                let cap = (cfg.initial_capacity + cfg.page_alignment - 1) & !(cfg.page_alignment - 1); c.input_str("cfg", &format!("{cfg:?}"));
+                let mut ops: Vec<ROp> = vec![ROp::Read(65535), ROp::Byte, ROp::Slice(65536), ROp::Read(65537), ROp::Ensure(70001), ROp::Simd(70001), ROp::Fill(65537), ROp::Slice(131071), ROp::Read(131072), ROp::Ensure(131073), ROp::Slice(131073), ROp::Simd(131073), ROp::Ensure(262145), ROp::Read(3), ROp::Slice(262145), ROp::Ensure(600000), ROp::Fill(10)];
+                c.rng.shuffle(&mut ops); for _ in 0..24 { ops.push(ROp::Read(150000 + c.rng.usize_below(9))); } c.input_str("ops", &format!("{:?}", &ops[..17]));
+                let biggest_read = 150008usize.max(1 + cap % 7); if biggest_read > cfg.max_capacity.max(cap) { c.tag("read_req_gt_max_capacity"); }
+                let mut p = 0;
+                if inner_kind == "cursor" { let mut rd = zok!("with_config", StreamBufferedReader::with_config(Cursor::new(data.clone()), cfg.clone())); let mut ns = |_: &mut StreamBufferedReader<Cursor<Vec<u8>>>, _: SeekFrom| -> std::io::Result<u64> { Ok(0) }; drive_sbuf(c, &mut rd, &data, &ops, cap, &mut p, &mut ns)?; ensure!(rd.total_read() == data.len() as u64, "total_read", "total_read {} want {}", rd.total_read(), data.len()); }
+                else { c.tag("inner_short_reads"); let f = c.rng.fork(); let mx = *c.rng.pick(&[4095usize, 65535, 65536, 65537, 200000]); let mut rd = zok!("with_config", StreamBufferedReader::with_config(Chunked::new(&data, mx, f), cfg.clone())); let mut ns = |_: &mut StreamBufferedReader<Chunked>, _: SeekFrom| -> std::io::Result<u64> { Ok(0) }; drive_sbuf(c, &mut rd, &data, &ops, cap, &mut p, &mut ns)?; }
+                Ok(()) });
+            ctx.case("zc/reader", &format!("huge_stream_{inner_kind}"), idx, |c| { let len = if idx % 2 == 0 { (1 << 20) + 17 } else { (2 << 20) + 3 }; let data = huge_stream_data(c, len); let cap = *c.rng.pick(&[65536usize, 65537, 131073, 196609, 262145]); let bounded = c.rng.bool(); c.input_str("cap", &cap.to_string());
+                let cl = |s: usize| if bounded { s.min(cap) } else { s };
+                let mut ops: Vec<ZOp> = vec![ZOp::Read(65535), ZOp::Opt(cl(65537)), ZOp::Peek(65535), ZOp::Zc(65536, 65536), ZOp::Zc(cap, 1), ZOp::Skip(70001), ZOp::Ensure(cap), ZOp::Zc(cap - 1, cap - 1), ZOp::Peek(cl(131073)), ZOp::Read(cap / 2 - 1), ZOp::Read(cap / 2), ZOp::Read(cap / 2 + 1), ZOp::Opt(cap), ZOp::Zc(cl(cap + 1), 0), ZOp::Skip(131073), ZOp::Read(3), ZOp::Zc(32768, 32767)];
+                c.rng.shuffle(&mut ops); for _ in 0..24 { ops.push(ZOp::Read(150000 + c.rng.usize_below(9))); } c.input_str("ops", &format!("{:?}", &ops[..17]));
+                if ops.iter().any(|o| match o { ZOp::Opt(s) | ZOp::Peek(s) | ZOp::Ensure(s) | ZOp::Zc(s, _) => *s > cap, _ => false }) { c.tag("zc_request_gt_capacity"); }
+                if inner_kind == "cursor" { let mut rd = zok!("with_capacity", ZeroCopyReader::with_capacity(Cursor::new(data.clone()), cap)); drive_zc(c, &mut rd, &data, &ops, cap) }
+                else { c.tag("inner_short_reads"); let f = c.rng.fork(); let mx = *c.rng.pick(&[4095usize, 65535, 65536, 65537, 200000]); let mut rd = zok!("with_capacity", ZeroCopyReader::with_capacity(Chunked::new(&data, mx, f), cap)); drive_zc(c, &mut rd, &data, &ops, cap) } });
+        }
+        // ---- positions beyond 2^16 and 2^32 (sparse file) through the buffered reader's Seek
+        ctx.case("sbuf/reader_seek", "huge_sparse_positions", idx, |c| { let plen = 70001 + c.rng.usize_below(70000); let payload = huge_stream_data(c, plen); let off = (1u64 << 32) + *c.rng.pick(&[0u64, 1, 65535, 65537]); c.input_str("offset", &off.to_string()); c.tag("seek_current_after_read");
+            let dir = tmpd()?; let p = dir.path().join("sparse.bin"); { let mut f = std::fs::File::create(&p).map_err(inconc)?; f.seek(SeekFrom::Start(off)).map_err(inconc)?; f.write_all(&payload).map_err(inconc)?; }
+            let total = off + plen as u64; let at = |pos: u64, i: usize| -> u8 { let q = pos + i as u64; if q >= off && q < total { payload[(q - off) as usize] } else { 0 } };
+            let f = std::fs::File::open(&p).map_err(inconc)?; let mut rd = zok!("new", if c.rng.bool() { StreamBufferedReader::new(f) } else { StreamBufferedReader::low_latency(f) }); let mut pos: u64 = 0;
+            for oi in 0..40 { let (sf, want): (SeekFrom, u64) = match c.rng.below(5) { 0 => { let x = off + c.rng.below(plen as u64); (SeekFrom::Start(x), x) } 1 => { let k = c.rng.below(plen as u64 + 1); (SeekFrom::End(-(k as i64)), total - k) } 2 => { let x = off - c.rng.below(70000); (SeekFrom::Start(x), x) }
+                    3 => { let d = c.rng.below(140000) as i64 - 70000; let d = d.max(-(pos as i64)); (SeekFrom::Current(d), (pos as i64 + d) as u64) } _ => { let x = *c.rng.pick(&[65535u64, 65536, 65537, (1 << 32) - 1]); (SeekFrom::Start(x), x) } };
+                let g = rd.seek(sf).map_err(|e| io_fail("seek_err", &format!("op {oi} seek({sf:?})"), e))?; ensure!(g == want, if matches!(sf, SeekFrom::Current(_)) { "seek_current_result" } else { "seek_result" }, "op {oi} seek({sf:?}) at logical offset {pos} returned {g} want {want}"); pos = want;
+                for _ in 0..(1 + c.rng.usize_below(3)) { let s = *c.rng.pick(&[1usize, 7, 4096, 65535, 65536, 65537, 70001]); let mut buf = vec![0u8; s]; let n = rd.read(&mut buf).map_err(|e| io_fail("read_err", &format!("op {oi} read({s}) at {pos}"), e))?; let avail = total.saturating_sub(pos);
+                    ensure!(n as u64 <= avail && (n > 0 || avail == 0), "premature_eof", "op {oi} read({s}) at offset {pos} of {total} returned {n}"); if let Some(i) = (0..n).find(|&i| buf[i] != at(pos, i)) { return Err(bad("stream_bytes", format!("op {oi} read({s}) at file offset {pos}: byte {i} differs"))); } pos += n as u64; c.ev(1); } }
+            Ok(()) });
+        // ---- ranges: starts / lengths above 2^16, sparse offsets above 2^32, multi-range with long ranges
+        ctx.case("range/reader", "huge_range", idx, |c| { let data = huge_stream_data(c, (1 << 20) + 17); let l = data.len(); let start = *c.rng.pick(&[65535usize, 65536, 65537, 131073]); let len = *c.rng.pick(&[65535usize, 65536, 65537, 131073, 700001]); c.input_str("range", &format!("start={start} len={len}")); let model = &data[start..(start + len).min(l)];
+            let mut rd = zok!("new_and_seek", RangeReader::new_and_seek(Cursor::new(data.clone()), start as u64, len as u64)); let mut q = 0usize;
+            for oi in 0..60 { if c.rng.chance(1, 4) { let x = c.rng.usize_below(len + 3); let g = rd.seek(SeekFrom::Start(x as u64)).map_err(|e| io_fail("seek_err", "seek", e))?; ensure!(g == x.min(len) as u64, "seek_result", "op {oi} seek(Start({x})) = {g}"); q = x.min(len); }
+                let s = *c.rng.pick(&[1usize, 4096, 65535, 65536, 65537, 70001]); let mut buf = vec![0u8; s]; let n = rd.read(&mut buf).map_err(|e| io_fail("read_err", "read", e))?; ensure!(n <= s.min(len - q), "read_overrun", "op {oi} read({s}) at {q} returned {n}");
+                if n == 0 { ensure!(q >= model.len(), "premature_eof", "op {oi} read({s}) returned 0 at range offset {q} of {}", model.len()); } else { ensure!(buf[..n] == model[q..q + n], "stream_bytes", "op {oi} read({s}) at range offset {q}: bytes differ"); } q += n; ensure!(rd.current_position() == (start + q) as u64 && rd.remaining() == (len - q) as u64, "range_position", "op {oi} accounting"); c.ev(1); }
+            Ok(()) });
+        ctx.case("range/reader", "huge_sparse_offset", idx, |c| { let plen = 131073 + c.rng.usize_below(1000); let payload = huge_stream_data(c, plen); let off = (1u64 << 32) + *c.rng.pick(&[0u64, 65535, 65537]); let pre = c.rng.usize_below(2000); let len = plen - pre - c.rng.usize_below(2000); c.input_str("range", &format!("off={off} pre={pre} len={len}"));
+            let dir = tmpd()?; let p = dir.path().join("sparse.bin"); { let mut f = std::fs::File::create(&p).map_err(inconc)?; f.seek(SeekFrom::Start(off)).map_err(inconc)?; f.write_all(&payload).map_err(inconc)?; }
+            let f = std::fs::File::open(&p).map_err(inconc)?; let start = off + pre as u64; let mut rd = zok!("range::reader", zipora::io::range::reader(f, start, len as u64)); let model = &payload[pre..pre + len]; let mut q = 0usize;
+            for oi in 0..40 { if c.rng.chance(1, 3) { let x = c.rng.usize_below(len + 3); let g = rd.seek(SeekFrom::Start(x as u64)).map_err(|e| io_fail("seek_err", "seek", e))?; ensure!(g == x.min(len) as u64, "seek_result", "op {oi} seek(Start({x})) = {g}"); q = x.min(len); }
+                let s = *c.rng.pick(&[1usize, 4096, 65535, 65537]); let mut buf = vec![0u8; s]; let n = rd.read(&mut buf).map_err(|e| io_fail("read_err", "read", e))?; ensure!(n <= s.min(len - q), "read_overrun", "op {oi} read({s}) at {q} returned {n}");
+                if n == 0 { ensure!(q >= len, "premature_eof", "op {oi} read({s}) returned 0 at range offset {q} of {len}"); } else { ensure!(buf[..n] == model[q..q + n], "stream_bytes", "op {oi} read({s}) at range offset {q} (file offset {}): bytes differ", start + q as u64); } q += n; ensure!(rd.current_position() == start + q as u64, "range_position", "op {oi}: current_position {} want {}", rd.current_position(), start + q as u64); c.ev(1); }
+            Ok(()) });
+        ctx.case("range/writer", "huge_range", idx, |c| { let bl = 262145 + c.rng.usize_below(100); let bg = huge_stream_data(c, bl); let l = bg.len(); let start = *c.rng.pick(&[65535usize, 65536, 65537]); let len = *c.rng.pick(&[65535usize, 65536, 65537, 131073, 250000]); c.input_str("range", &format!("start={start} len={len}")); let mut model = bg.clone(); let _ = l;
+            let mut w = zok!("RangeWriter::new_and_seek", RangeWriter::new_and_seek(Cursor::new(bg.clone()), start as u64, len as u64)); let mut q = 0usize; let mut total = 0usize;
+            for oi in 0..12 { if c.rng.chance(1, 5) { let x = c.rng.usize_below(len + 3); let g = w.seek(SeekFrom::Start(x as u64)).map_err(|e| io_fail("seek_err", "seek", e))?; ensure!(g == x.min(len) as u64, "seek_result", "op {oi} seek(Start({x})) = {g}"); q = x.min(len); }
+                let s = *c.rng.pick(&[1usize, 4096, 65535, 65536, 65537, 70001]); let chunk = c.rng.bytes(s); let n = w.write(&chunk).map_err(|e| io_fail("write_err", "write", e))?; ensure!(n == s.min(len - q), "write_count", "op {oi} write({s}) at range offset {q} of {len} accepted {n}");
+                if n > 0 { if model.len() < start + q + n { model.resize(start + q + n, 0); } model[start + q..start + q + n].copy_from_slice(&chunk[..n]); } q += n; total += n; ensure!(w.bytes_written() == total as u64 && w.remaining() == (len - q) as u64, "range_position", "op {oi} accounting"); c.ev(1); }
+            let got = w.into_inner().into_inner(); ensure!(got == model, "stream_bytes", "inner content after ranged writes differs from model"); Ok(()) });
+        ctx.case("range/multi", "huge_ranges", idx, |c| { let data = huge_stream_data(c, (1 << 20) + 17); let l = data.len(); let k = 2 + c.rng.usize_below(4); let ranges: Vec<(u64, u64)> = (0..k).map(|_| { let a = c.rng.usize_below(l - 140000); let b = a + *c.rng.pick(&[0usize, 65535, 65536, 65537, 131073]); (a as u64, b as u64) }).collect(); c.input_str("ranges", &format!("{ranges:?}"));
+            let want: Vec<u8> = ranges.iter().flat_map(|&(a, b)| data[a as usize..b as usize].to_vec()).collect(); let mut rd = MultiRangeReader::new(Cursor::new(data.clone()), ranges.clone()); ensure!(rd.total_length() == want.len() as u64, "range_meta", "total_length"); let mut got = Vec::with_capacity(want.len());
+            loop { let s = *c.rng.pick(&[4096usize, 65535, 65536, 65537, 70001]); let mut buf = vec![0u8; s]; let n = rd.read(&mut buf).map_err(|e| io_fail("read_err", "MultiRangeReader::read", e))?; if n == 0 { break; } got.extend_from_slice(&buf[..n]); c.ev(1); ensure!(got.len() <= want.len(), "read_overrun", "produced more than the ranges contain"); }
+            ensure!(got == want, "stream_bytes", "multi-range stream ({} bytes) differs from concatenated ranges ({} bytes)", got.len(), want.len()); Ok(()) });
+        // ---- zero-copy buffer with capacities just above powers of two, vectored I/O with > 64 KiB buffers, mmap reader over > 1 MiB
+        ctx.case("zc/buffer", "huge_capacity", idx, |c| { let cap = *c.rng.pick(&[65537usize, 131073, 196609, 262145]); c.input_str("cap", &cap.to_string()); c.set_nontrivial(true); let mut b = zok!("ZeroCopyBuffer::new", ZeroCopyBuffer::new(cap)); let mut q: VecDeque<u8> = VecDeque::new(); let (mut rp, mut wp) = (0usize, 0usize); let mut sink: Vec<u8> = Vec::new(); let mut sink_model: Vec<u8> = Vec::new();
+            for oi in 0..40 { let big = *c.rng.pick(&[1usize, 4096, 65535, 65536, 65537, 70001]);
+                match c.rng.below(6) { 0 | 1 => { let len = big.min(cap - wp + c.rng.usize_below(2)); let fill = c.rng.bytes(len); let got = zok!("zc_write", b.zc_write(len).map(|o| o.map(|s| s.copy_from_slice(&fill)))); ensure!(got.is_some() == (cap - wp >= len), "zc_write_some", "op {oi} zc_write({len})"); if got.is_some() { zok!("zc_commit", b.zc_commit(len)); wp += len; q.extend(&fill); } }
+                    2 => { let len = big.min(q.len() + c.rng.usize_below(2)); let got = zok!("zc_read", b.zc_read(len).map(|o| o.map(|s| s.to_vec()))); ensure!(got.is_some() == (q.len() >= len), "zc_read_some", "op {oi} zc_read({len})"); if let Some(v) = got { ensure!(v.iter().copied().eq(q.iter().take(len).copied()), "stream_bytes", "op {oi} zc_read({len}) differs from FIFO model"); zok!("zc_advance", b.zc_advance(len)); rp += len; q.drain(..len); } }
+                    3 => { np!("compact", b.compact()); if rp > 0 { wp -= rp; rp = 0; } }
+                    4 => { let src = c.rng.bytes(big); let mut cur = Cursor::new(src.clone()); if wp == cap && rp > 0 { wp -= rp; rp = 0; } let want = big.min(cap - wp); let got = zok!("fill_from", b.fill_from(&mut cur)); ensure!(got == want, "fill_from", "op {oi} fill_from returned {got} want {want}"); wp += got; q.extend(&src[..got]); }
+                    _ => { let got = zok!("drain_to", b.drain_to(&mut sink)); ensure!(got == q.len(), "drain_to", "op {oi} drain_to returned {got} want {}", q.len()); sink_model.extend(q.drain(..)); rp = wp; ensure!(sink == sink_model, "stream_bytes", "drained bytes differ from FIFO model"); } }
+                ensure!(b.readable_slice().iter().copied().eq(q.iter().copied()), "stream_bytes", "op {oi}: readable_slice differs from FIFO model"); ensure!(b.available() == wp - rp && b.write_available() == cap - wp && b.read_position() == rp && b.write_position() == wp, "buffer_accounting", "op {oi}: positions ({},{}) want ({rp},{wp})", b.read_position(), b.write_position()); c.ev(2); }
+            Ok(()) });
+        for inner_kind in ["cursor", "chunked"] {
+            ctx.case("zc/vectored", &format!("huge_buffers_{inner_kind}"), idx, |c| { let dl = 300000 + c.rng.usize_below(100); let data = huge_stream_data(c, dl); let chunked = inner_kind == "chunked"; if chunked { c.tag("inner_short_transfers"); } let mx = *c.rng.pick(&[4095usize, 65535, 65536, 65537]); let sizes: Vec<usize> = vec![65535, 1, 65536, 0, 65537, 70001]; c.input_str("max_transfer", &mx.to_string());
+                let mut bufs: Vec<Vec<u8>> = sizes.iter().map(|&s| vec![0xEEu8; s]).collect(); let total = { let mut sl: Vec<IoSliceMut> = bufs.iter_mut().map(|b| IoSliceMut::new(b)).collect(); let f = c.rng.fork();
+                    let r = if chunked { let mut rd = Chunked::new(&data, mx, f); VectoredIO::read_vectored(&mut rd, &mut sl) } else { let mut rd = Cursor::new(data.clone()); VectoredIO::read_vectored(&mut rd, &mut sl) }; r.map_err(|e| io_fail("read_err", "read_vectored", e))? };
+                let flat: Vec<u8> = bufs.concat(); ensure!(total <= flat.len() && total > 0, "premature_eof", "read_vectored returned {total}"); ensure!(flat[..total] == data[..total], "vectored_read_layout", "read_vectored returned {total}: buffers are not a prefix of the stream"); if !chunked { ensure!(total == flat.len(), "vectored_read_layout", "full reads available but only {total} of {} filled", flat.len()); } c.ev(1);
+                let src: Vec<Vec<u8>> = sizes.iter().map(|&s| c.rng.bytes(s)).collect(); let sl: Vec<IoSlice> = src.iter().map(|b| IoSlice::new(b)).collect(); let flat: Vec<u8> = src.concat(); let f = c.rng.fork();
+                let (n, out) = if chunked { let mut w = ShortWriter::new(mx, f); let n = VectoredIO::write_vectored(&mut w, &sl).map_err(|e| io_fail("write_err", "write_vectored", e))?; (n, w.out) } else { let mut w: Vec<u8> = Vec::new(); let n = VectoredIO::write_vectored(&mut w, &sl).map_err(|e| io_fail("write_err", "write_vectored", e))?; (n, w) };
+                ensure!(n == out.len() && n <= flat.len(), "write_count", "write_vectored returned {n}, inner received {}", out.len()); ensure!(out[..] == flat[..n], "vectored_write_layout", "write_vectored returned {n}: inner did not receive a prefix of the buffers"); c.ev(1); Ok(()) });
+        }
+        ctx.case("zc/mmap_reader", "huge_file", idx, |c| { let data = huge_stream_data(c, (1 << 20) + 17); let l = data.len(); let dir = tmpd()?; let p = dir.path().join("z.bin"); std::fs::write(&p, &data).map_err(inconc)?; let f = std::fs::File::open(&p).map_err(inconc)?; let mut rd = zok!("MmapZeroCopyReader::new", MmapZeroCopyReader::new(f)); ensure!(rd.len() == l && rd.as_slice() == &data[..], "stream_bytes", "mapped slice differs"); let mut pos = 0usize;
+            for oi in 0..40 { let avail = l - pos; let s = *c.rng.pick(&[1usize, 65535, 65536, 65537, 131073]); match c.rng.below(3) { 0 => { let mut buf = vec![0u8; s]; let n = rd.read(&mut buf).map_err(|e| io_fail("read_err", "read", e))?; ensure!(n == s.min(avail) && buf[..n] == data[pos..pos + n], "stream_bytes", "op {oi} read({s}) at {pos} returned {n}"); pos += n; }
+                    1 => { let got = zok!("zc_read", rd.zc_read(s).map(|o| o.map(|x| x.to_vec()))); ensure!(got.is_some() == (s <= avail), "zc_read_some", "op {oi} zc_read({s}) with {avail} left"); if let Some(v) = got { ensure!(v[..] == data[pos..pos + s], "stream_bytes", "op {oi} zc_read differs"); zok!("zc_advance", rd.zc_advance(s)); pos += s; } }
+                    _ => { let x = c.rng.usize_below(l + 1); zok!("set_position", rd.set_position(x)); pos = x; } } c.ev(1); }
+            Ok(()) });
+    }
+}
+
 pub fn run(ctx: &mut Ctx) {
     if cfg!(miri) { run_zero_copy(ctx); return; } // Miri sample: the unsafe buffer code of zero_copy.rs only (no files, no cpuid)
     run_varint(ctx);
@@ -1040,4 +1304,5 @@ pub fn run(ctx: &mut Ctx) {
     run_range(ctx);
     run_sbuf(ctx);
     run_zero_copy(ctx);
+    run_huge(ctx);
 }
